@@ -340,3 +340,23 @@ fault("C20.collect-always", "C20", GR, "                        if rhs_elem.fqn 
 fault("C20.fqn-name-only", "C20", GR, "    @property\n    def fqn(self):\n        if self.imported_with:\n            return f\"{self.imported_with.fqn}.{self.name}\"\n        return self.name\n\n    @property\n    def action_fqn", "    @property\n    def fqn(self):\n        return self.name\n\n    @property\n    def action_fqn", "R20.resolution")
 benign("C20.b-registry-get", "C20", GR, "            if self.file_path in self.grammar.imported_files:\n                self.pgfile = self.grammar.imported_files[self.file_path]\n            else:",
        "            if self.file_path in self.grammar.imported_files:\n                self.pgfile = self.grammar.imported_files[self.file_path]\n            else:  # not loaded yet")
+
+# ---------------------------------------------------------------- C11
+fault("C11.bound-ne", "C11", P, "        while head.position < len(head.input_str):\n            head.position += 1", "        while head.position != len(head.input_str):\n            head.position += 1", "R11.progress")
+fault("C11.inc-after-test", "C11", P, "            head.position += 1\n            token = self._next_token(head)\n            if token:\n                head.token_ahead = token\n                return True",
+      "            token = self._next_token(head)\n            if token:\n                head.token_ahead = token\n                return True\n            head.position += 1", "R11.progress")
+fault("C11.no-lookahead-store", "C11", P, "            if token:\n                head.token_ahead = token\n                return True", "            if token:\n                return True", "R11.progress")
+fault("C11.lr-span-unconditional", "C11", P, "        if successful:\n            if debug:\n                h_print(\"Recovery \")\n            error.location.end_position = head.position",
+      "        error.location.end_position = head.position\n        if successful:\n            if debug:\n                h_print(\"Recovery \")", "R11.span-end")
+fault("C11.glr-span-unconditional", "C11", G, "            if successful:\n                error.location.end_position = head.position\n", "            error.location.end_position = head.position\n            if successful:\n", "R11.span-end")
+fault("C11.lr-no-span-end", "C11", P, "            error.location.end_position = head.position\n            if debug:\n                a_print(\n                    \"New position is \",", "            if debug:\n                a_print(\n                    \"New position is \",", "R11.span-end")
+fault("C11.glr-reinsert-all", "C11", G, "                self._active_heads[head.state.state_id] = head\n                if self.debug:\n                    a_print(\n                        \"*** ERROR RECOVERY SUCCEEDED. CONTINUING.\",",
+      "                if self.debug:\n                    a_print(\n                        \"*** ERROR RECOVERY SUCCEEDED. CONTINUING.\",", "R11.span-end",
+      edits=[("                self._active_heads[head.state.state_id] = head\n                if self.debug:\n                    a_print(\n                        \"*** ERROR RECOVERY SUCCEEDED. CONTINUING.\",",
+              "                if self.debug:\n                    a_print(\n                        \"*** ERROR RECOVERY SUCCEEDED. CONTINUING.\","),
+             ("            if successful:\n                error.location.end_position = head.position\n", "            self._active_heads[head.state.state_id] = head\n            if successful:\n                error.location.end_position = head.position\n")])
+fault("C11.lr-unguarded-recovery", "C11", P, "                if self.error_recovery:\n                    if self.debug:\n                        a_print(\"*** STARTING ERROR RECOVERY.\", new_line=True)", "                if True:\n                    if self.debug:\n                        a_print(\"*** STARTING ERROR RECOVERY.\", new_line=True)", "R11.gated")
+fault("C11.lr-fail-continues", "C11", P, "                        continue\n                    else:\n                        break\n                else:\n                    break", "                        continue\n                    else:\n                        continue\n                else:\n                    break", "R11.gated")
+fault("C11.glr-no-clear", "C11", G, "                    self._do_error_recovery()\n                    self._for_shifter = []\n                    continue", "                    self._do_error_recovery()\n                    continue", "R11.gated")
+fault("C11.shift-value-len", "C11", P, "new_position = head.position + len(head.token_ahead)", "new_position = head.position + len(head.token_ahead.value)", "R11.token-length")
+benign("C11.b-for-shifter-clear-first", "C11", G, "                    self._do_error_recovery()\n                    self._for_shifter = []\n                    continue", "                    self._for_shifter = []\n                    self._do_error_recovery()\n                    self._for_shifter = []\n                    continue")
